@@ -79,6 +79,16 @@ Definition oct_emit (ds : list N) (rest : list N) : fstep :=
   | None => FCont (92 :: enc_runes ds) rest
   end.
 
+(* ---- the integer parser applied to the digits of hex and unicode escapes ----
+   hex_signed: strconv.ParseInt(s, 16, 32), the tree as it is (a sign is accepted);
+   hex_unsigned: strconv.ParseUint(s, 16, 32), the tree after the optional hardening patch
+   (fixes/C25-fastscan-signed-escapes-optional.diff).  The lexer below is parametrised by it. *)
+Definition hex_signed : list N -> option Z := parse_int_32 16.
+Definition hex_unsigned (rs : list N) : option Z := option_map Z.of_N (parse_uint16_32 rs).
+
+Section WithHexParser.
+Variable ph : list N -> option Z.
+
 (* the unicode cases: k runes are read unconditionally into u (zero-filled).  When the input ends
    inside, the reading loop writes the escape read so far and stops, and the code after the loop
    still parses the zero-padded u and writes it raw once more. *)
@@ -87,7 +97,7 @@ Definition uni_emit (k : nat) (e : N) (long : bool) (r2 : list N) : fstep :=
   let r3 := skipn n r2 in
   let u := rs ++ repeat 0 (k - length rs) in
   let pre := if Nat.ltb (length rs) k then 92 :: e :: enc_runes rs else [] in
-  match parse_int_32 16 u with
+  match ph u with
   | Some i =>
     if long && ((1114111 <? i) || (i <? 0))%Z then FCont (pre ++ 92 :: e :: enc_runes u) r3
     else FCont (pre ++ enc_rune_z i) r3
@@ -119,7 +129,7 @@ Definition fstr_step (quote : N) (rest : list N) : fstep :=
             | _ =>
               let '(c2, sz2) := decode_rune r3 in
               let '(hex, r4) := if is_hexdigit c2 then ([c1; c2], skipn sz2 r3) else ([c1], r3) in
-              match parse_int_32 16 hex with
+              match ph hex with
               | Some i => FCont [byte_of_z i] r4
               | None => FCont (92 :: encode_rune e ++ enc_runes hex) r4
               end
@@ -241,6 +251,8 @@ Fixpoint ftokens (fuel : nat) (rest : list N) : option (list ftok) :=
 
 Definition fast_lex (data : list N) : option (list ftok) :=
   let d := strip_bom data in ftokens (S (length d)) d.
+
+End WithHexParser.
 
 (* ---- Scan ---- *)
 Record import := { im_path : list N; im_public : bool; im_weak : bool; im_option : bool }.
@@ -399,7 +411,8 @@ Definition scan (toks : list ftok) : scan_result :=
   {| r_pkg := s_pkg st; r_imports := s_imports st; r_errs := s_errs st |}.
 
 (* fastscan.Scan on the bytes of a file; None = out of fuel *)
-Definition fast_scan (data : list N) : option scan_result := option_map scan (fast_lex data).
+Definition fast_scan (ph : list N -> option Z) (data : list N) : option scan_result :=
+  option_map scan (fast_lex ph data).
 
 (* ---- one string literal in both lexers (what Proofs/FastScan.v relates) ----
    The input is what follows the opening quote.  full_decode: the full lexer (Model/Lexer.v,
@@ -418,8 +431,8 @@ Definition full_decode (quote : N) (rest : list N) : option (list N * nat) :=
   end.
 
 (* the fast lexer: value and remaining input; None = out of fuel *)
-Definition fast_decode (quote : N) (rest : list N) : option (list N * list N) :=
-  fstring (S (length rest)) quote rest.
+Definition fast_decode (ph : list N -> option Z) (quote : N) (rest : list N) : option (list N * list N) :=
+  fstring ph (S (length rest)) quote rest.
 
 (* ---- the tokens of the full lexer as the fast lexer should see them ----
    what one item of the full lexer (Model/Lexer.v) is for the scanner: comments and the EOF token
@@ -554,8 +567,8 @@ Record fs_case := {
   fc_errs : list N                    (* kinds of the syntax errors Scan returned, in order *)
 }.
 
-Definition fs_chk (c : fs_case) : bool :=
-  match fast_lex (fc_data c) with
+Definition fs_chk (ph : list N -> option Z) (c : fs_case) : bool :=
+  match fast_lex ph (fc_data c) with
   | None => false
   | Some toks =>
     let r := scan toks in
